@@ -649,6 +649,14 @@ fn alloc_site(image: &[u8], wrapper: Wrapper, rp: &ReaderPlan, threshold: u64) -
 fn run_trunc(plan: &Plan, image: &[u8]) -> Report {
     let mut facts = Facts::default();
     facts.evals = 1;
+    if plan.note == "warmup" {
+        // the complete file, loaded through the same seam just before its truncated versions (a
+        // writer crash typically shortens a file the application has loaded before): not judged
+        let _ = catch_unwind(AssertUnwindSafe(|| load(image, plan.wrapper, &plan.reader, None, false, false).0));
+        let _ = take_panic();
+        facts.outcome = "warmup".into();
+        return Report { violation: None, facts };
+    }
     let v = trunc_check(&plan.property, image, plan.wrapper, &plan.reader);
     facts.outcome = if v.is_some() { "violation".into() } else { "err".into() };
     Report { violation: v, facts }
